@@ -6,14 +6,17 @@
    valid_for            = the Fortran constraints the Spec presupposes (one list-less access statement,
                           PUBLIC and PRIVATE not both given, PROTECTED only on variables; no access
                           syntax in a submodule)
-   region body n        = bit mask of the recorded findings the identifier falls in:
-                          1 list-less access statement after the declaration, 2 PROTECTED given together with
-                          PUBLIC/PRIVATE or under the PRIVATE default,
-                          4 identifier declared more than once, 8 an identifier written with blanks *)
+   region body k n      = 2 (recorded finding): PROTECTED given together with PUBLIC/PRIVATE or under the
+                          PRIVATE default — FORD keeps one keyword per entity;
+                          4 (no finding, outside C04_partial): another variable / type declaration carries
+                          the identifier — the constructor interface of a type (C04_constructor) and
+                          programs that declare a name twice.
+   Repaired since the first version (former regions late-default, repeated-identifier, blank-in-identifier):
+   the witnesses are kept as C04_fixed_* and replayed on the implementation by the harness. *)
 From Ford Require Import Base.Str Sem.Access Sem.AccessProofs.
 
 (* The full statement: every module-level entity gets the accessibility Fortran defines.
-   It is FALSE of the code (five witnesses below): partial theorem + refutations. *)
+   It is FALSE of the code (two witnesses below, both about PROTECTED): partial theorem + refutations. *)
 Definition C04_statement : Prop :=
   forall sk body out e,
     ford_perms sk body = Some out -> In e out -> top_level e = true ->
@@ -25,21 +28,16 @@ Proof. exact statement_refuted. Qed.
 Print Assumptions C04_statement_refuted.
 
 (* All statement lists, all entities (variables, parameters, types, procedures, generic / operator /
-   abstract / nameless interfaces and their procedures), modules and submodules: outside the four
-   regions FORD's permission is Fortran's. *)
+   abstract / nameless interfaces and their procedures), modules and submodules, the list-less access
+   statement at any place, any number of generic blocks of one name, any spelling of blanks and case:
+   outside the two regions FORD's permission is Fortran's. *)
 Theorem C04_partial : forall sk body out e,
   ford_perms sk body = Some out -> In e out -> top_level e = true ->
   valid_for sk body (e_kind e) (e_name e) = true ->
-  region body (e_name e) = 0 ->
+  region body (e_kind e) (e_name e) = 0 ->
   e_perm e = fortran_perm sk body (e_kind e) (e_name e).
 Proof. exact partial. Qed.
 Print Assumptions C04_partial.
-
-(* region 1: `integer :: x` / `type t` ... `private`: x and t stay public *)
-Theorem C04_refuted_late_default :
-  refutes w_late (mk_ent KVar [] (s "x") Public) 1 /\ refutes w_late (mk_ent KType [] (s "t") Public) 1.
-Proof. exact refuted_late_default. Qed.
-Print Assumptions C04_refuted_late_default.
 
 (* region 2: `private` + `integer, protected :: y`: y is reported (and exported) as protected *)
 Theorem C04_refuted_protected_private : refutes w_prot_private (mk_ent KVar [] (s "y") Protected) 2.
@@ -51,23 +49,11 @@ Theorem C04_refuted_protected_lost : refutes w_prot_lost (mk_ent KVar [] (s "w")
 Proof. exact refuted_protected_lost. Qed.
 Print Assumptions C04_refuted_protected_lost.
 
-(* region 4: `private` + `public :: gen` + two `interface gen` blocks: the second stays private *)
-Theorem C04_refuted_repeated_generic : refutes w_repeated (mk_ent KGeneric [] (s "gen") Private) 4.
-Proof. exact refuted_repeated_generic. Qed.
-Print Assumptions C04_refuted_repeated_generic.
-
-(* region 8: `public :: operator(+)` does not reach `interface operator (+)` *)
-Theorem C04_refuted_operator_spelling :
-  refutes w_spelling (mk_ent KOperator [] (s "operator (+)") Private) 8.
-Proof. exact refuted_operator_spelling. Qed.
-Print Assumptions C04_refuted_operator_spelling.
-
 (* `protected` is recorded: a variable whose only keyword is PROTECTED is reported as protected, which
-   is Fortran's answer when the module default is public (used by C04_partial; stated on its own
-   because it needs no hypothesis on where the default statement stands) *)
+   is Fortran's answer when the module default is public *)
 Theorem C04_protected_recorded : forall body out e,
   ford_perms ScModule body = Some out -> In e out -> e_kind e = KVar ->
-  declared_twice (e_name e) body = false -> names_blank_free body = true ->
+  attr_twin KVar (e_name e) body = false ->
   protected_given (e_name e) body = true ->
   has Public (explicit_specs (e_name e) body) = false ->
   has Private (explicit_specs (e_name e) body) = false ->
@@ -76,7 +62,42 @@ Theorem C04_protected_recorded : forall body out e,
 Proof. exact protected_recorded. Qed.
 Print Assumptions C04_protected_recorded.
 
-(* components and bindings: full, for every type body the Fortran grammar admits *)
+(* region 4, the constructor interface: in FORD's output the one procedure / interface named after a
+   (single) derived type has the type's permission — which C04_partial ties to the Spec for the type, and
+   the Spec gives one answer per identifier (C04_same_identifier) *)
+Theorem C04_constructor : forall sk body out g t,
+  ford_perms sk body = Some out -> In g out -> In t out -> e_kind t = KType ->
+  proc_named (pkey (e_name t)) g = true ->
+  cnt (proc_named (pkey (e_name t))) out = 1 -> cnt (type_named (pkey (e_name t))) out = 1 ->
+  e_perm g = e_perm t.
+Proof. exact constructor_follows_type. Qed.
+Print Assumptions C04_constructor.
+
+Theorem C04_same_identifier : forall sk body k1 k2 n1 n2,
+  key n1 = key n2 -> is_variable k1 = is_variable k2 ->
+  fortran_perm sk body k1 n1 = fortran_perm sk body k2 n2.
+Proof. exact fortran_perm_same_id. Qed.
+Print Assumptions C04_same_identifier.
+
+(* former witnesses of repaired defects: FORD's answer is now Fortran's *)
+Theorem C04_fixed_late_default :
+  agrees w_late (mk_ent KVar [] (s "x") Private) /\ agrees w_late (mk_ent KType [] (s "t") Private).
+Proof. exact fixed_late_default. Qed.
+Print Assumptions C04_fixed_late_default.
+
+Theorem C04_fixed_repeated_generic :
+  exists out, ford_perms ScModule w_repeated = Some out /\
+    filter (fun e => ekind_eqb (e_kind e) KGeneric) out
+    = [mk_ent KGeneric [] (s "gen") Public; mk_ent KGeneric [] (s "gen") Public] /\
+    region w_repeated KGeneric (s "gen") = 0 /\ fortran_perm ScModule w_repeated KGeneric (s "gen") = Public.
+Proof. exact fixed_repeated_generic. Qed.
+Print Assumptions C04_fixed_repeated_generic.
+
+Theorem C04_fixed_operator_spelling : agrees w_spelling (mk_ent KOperator [] (s "operator (+)") Public).
+Proof. exact fixed_operator_spelling. Qed.
+Print Assumptions C04_fixed_operator_spelling.
+
+(* components and bindings: full, for every type body the Fortran grammar allows *)
 Theorem C04_types : forall owner tb, twf 0 tb = true -> tchildren owner tb = fortran_tperms owner tb.
 Proof. exact types. Qed.
 Print Assumptions C04_types.
